@@ -1033,6 +1033,13 @@ class PseudoNetCDFFile(PseudoNetCDFSelfReg, object):
             except Exception:
                 pass
             val = vardict[key]
+            # a view of an input ('C = A[:]', 'C = np.asarray(A)'): as for a
+            # bare name, the result must not write through to the input
+            aliased = isinstance(val, np.ndarray) and any([
+                np.may_share_memory(val, v)
+                for v in self.variables.values()
+                if isinstance(v, np.ndarray)
+            ])
             # if the output variable has no dimensions,
             # there is likely a problem and the output
             # should be defined.
@@ -1057,9 +1064,13 @@ class PseudoNetCDFFile(PseudoNetCDFSelfReg, object):
                     # a bare name ('C = A'): the result gets its own copy,
                     # not the input's variable object
                     outf.copyVariable(val, key=key)
+                elif aliased:
+                    outf.variables[key] = val.copy()
                 else:
                     outf.variables[key] = val
             else:
+                if aliased:
+                    val = val.copy()
                 outf.createVariable(key, val.dtype.char,
                                     dimt, values=val, **propd)
 
